@@ -51,7 +51,7 @@ func (g *pgen) num(n int64, d int) string {
 		}
 	case 8:
 		e := g.r.Pick("e", "E")
-		s = digits + e + g.r.Pick("-", "-0")[:1] + strconv.Itoa(d)
+		s = digits + e + "-" + strconv.Itoa(d)
 		if d == 0 {
 			s = digits + e + g.r.Pick("0", "+0", "-0", "00")
 		}
@@ -80,7 +80,7 @@ func (g *pgen) num(n int64, d int) string {
 			g.hit("num:integer-with-zero-fraction")
 		}
 	case 13:
-		if d == 0 {
+		if d == 0 && g.known {
 			s += "."
 			g.hit("num:trailing-dot")
 		}
